@@ -783,7 +783,21 @@ impl<'a> Parser<'a> {
             self.parse_re(ix, depth)?
         };
         next = self.check_for_close_paren(next)?;
-        let (end, child) = self.parse_re(next, depth)?;
+        // Split the branches at the `|`s of the conditional itself. Looking at the parsed
+        // expression instead would mistake a yes-branch that is a grouped alternation, as in
+        // `(?(1)(?:a|b))`, for `yes|no`, because `(?:...)` leaves no node of its own.
+        let (after_branch, first_branch) = self.parse_branch(next, depth)?;
+        let mut end = self.optional_whitespace(after_branch)?;
+        let mut branches = vec![first_branch];
+        while self.re[end..].starts_with('|') {
+            let (after_branch, branch) = self.parse_branch(end + 1, depth)?;
+            branches.push(branch);
+            end = self.optional_whitespace(after_branch)?;
+        }
+        // can't have numeric backrefs and named backrefs
+        if branches.len() == 1 && self.numeric_backrefs && !self.named_groups.is_empty() {
+            return Err(Error::CompileError(CompileError::NamedBackrefOnly));
+        }
         if end == next {
             // Backreference validity checker
             if let Expr::Backref(group) = condition {
@@ -798,22 +812,14 @@ impl<'a> Parser<'a> {
                 ));
             }
         }
-        let if_true: Expr;
-        let mut if_false: Expr = Expr::Empty;
-        if let Expr::Alt(mut alternatives) = child {
-            // the truth branch will be the first alternative
-            if_true = alternatives.remove(0);
-            // if there is only one alternative left, take it out the Expr::Alt
-            if alternatives.len() == 1 {
-                if_false = alternatives.pop().expect("expected 2 alternatives");
-            } else {
-                // otherwise the remaining branches become the false branch
-                if_false = Expr::Alt(alternatives);
-            }
-        } else {
-            // there is only one branch - the truth branch. i.e. "if" without "else"
-            if_true = child;
-        }
+        // the truth branch is the first alternative; "if" without "else" has an empty false
+        // branch; several remaining alternatives become the false branch together
+        let if_true: Expr = branches.remove(0);
+        let if_false: Expr = match branches.len() {
+            0 => Expr::Empty,
+            1 => branches.pop().expect("expected 2 alternatives"),
+            _ => Expr::Alt(branches),
+        };
         let inner_condition = if let Expr::Backref(group) = condition {
             Expr::BackrefExistsCondition(group)
         } else {
